@@ -64,7 +64,7 @@ class CfgOp(Op):
 
     name = "cfg"
     family = "cfg"
-    MUT = ("add", "discard", "remove", "pop", "clear", "update", "ior", "isub", "iand", "ixor")
+    MUT = ("add", "discard", "remove", "pop", "clear", "update", "ior", "isub", "iand", "ixor")  # + "add_none" (generated apart)
     PURE = ("contains", "len", "iter", "out_edges", "in_edges", "or", "and", "sub", "xor", "eq", "le", "isdisjoint")
 
     def _edges(self, op):
@@ -81,7 +81,7 @@ class CfgOp(Op):
         out = [(op["ir"], ("ir",))]
         for e in self._edges(op):
             out += [(e[0], ("cb", "px")), (e[1], ("cb", "px"))]
-        if op["method"] in ("out_edges", "in_edges"):
+        if op["method"] in ("out_edges", "in_edges", "add_none"):
             out.append((op["args"][0], ("cb", "px")))
         if op.get("cfg_arg"):
             out.append((op["cfg_arg"], ("ir",)))
@@ -95,6 +95,12 @@ class CfgOp(Op):
         m, a = op["method"], op.get("args", [])
         if m == "add":
             e = mk_edge(w, a[0])
+            fn = lambda: C.add(e)
+        elif m == "add_none":
+            # an edge with a missing endpoint (Edge(block, symbol.referent) for a symbol without
+            # referent): no statement covers it; whatever happens, the set stays consistent
+            n0 = w.objs[a[0]]
+            e = w.g.Edge(n0, None) if a[1] == "target" else w.g.Edge(None, n0)
             fn = lambda: C.add(e)
         elif m == "discard":
             e = mk_edge(w, a[0])
@@ -118,6 +124,8 @@ class CfgOp(Op):
             fn = lambda: C.update(arg)
         elif m in ("ior", "isub", "iand", "ixor"):
             es = w.objs[op["cfg_arg"]].cfg if op.get("cfg_arg") else OSet(mk_edge(w, e) for e in a[0])
+            if op.get("style") == "iter" and not op.get("cfg_arg"):
+                es = iter(list(es))  # a one-shot iterator (the built-in set refuses it; the ABC mixins take it)
             name = "__%s__" % m
             fn = lambda: getattr(C, name)(es)
         elif m in ("or", "and", "sub", "xor", "eq", "le"):
@@ -170,6 +178,15 @@ class CfgOp(Op):
             # this very CFG: s |= s, s -= s, s ^= s, s.update(s), s == s ...)
             a = [[[e[0], e[1], list(e[2]) if e[2] is not None else None] for e in sorted(w.m.nodes[op["cfg_arg"]].a["cfg"], key=repr)]]
             w.counters["probe:cfg_object_as_argument" + ("_self" if op["cfg_arg"] == op["ir"] else "")] += 1
+        if m == "add_none":
+            from .core import EndOfDomain
+
+            w.counters["probe:cfg_add_with_missing_endpoint_" + ("accepted" if out.kind == "ok" else "refused")] += 1
+            if out.kind == "ok":
+                raise EndOfDomain()  # accepted: outside every statement from here on
+            return Exp("any")  # refused: nothing changed - inv_c11 decides
+        if m in ("ior", "isub", "iand", "ixor") and op.get("style") == "iter" and not op.get("cfg_arg") and out.kind == "exc" and isinstance(out.exc, TypeError):
+            return Exp("any")  # like the built-in: operators take sets only; nothing changed
         try:
             if m == "add":
                 S.add(norm_edge(a[0]))
